@@ -136,7 +136,7 @@ def runAssign (cls pl field val : String) : String :=
 /-- the response class of a poll: a number n = a synthetic class that decodes payloads of at least n bytes,
     otherwise the name of a real class, decodable iff `construct(payload)` succeeds in the model -/
 def respInfo (tok : String) : ClassInfo :=
-  if tok.all Char.isDigit && !tok.isEmpty then ⟨"resp", fun p => decide (tok.toNat! ≤ p.length)⟩
+  if tok.all Char.isDigit && !tok.isEmpty then ⟨"resp" ++ tok, fun p => decide (tok.toNat! ≤ p.length)⟩
   else if tok == "UbxCfgValGet" then ⟨tok, fun p => match valgetDecode p with | .ok _ => true | .error _ => false⟩
   else ⟨tok, fun p => match decodeClass tok p with | some (.ok _) => true | _ => false⟩
 
@@ -325,6 +325,25 @@ def rkindOf (cls field : String) : Ubx.Render.RKind :=
 
 def valNat : Val → Nat | .int v => v.toNat | .str _ => 0
 
+/-- `strval|valset|items`, `strval|valgetpoll|keys`, `strval|valget|<payload hex>`: `str()` of the frames whose fields are
+    configuration items -/
+def runStrVal (kind arg : String) : String :=
+  let itemsText (items : List CfgItem) : Except Exc Nat :=
+    (items.zipIdx.mapM fun (x : CfgItem × Nat) => x.1.text s!"data{x.2}").map (·.length)
+  match kind with
+  | "valset" =>
+      (match itemsText ((arg.splitOn ";").map parseItem) with
+       | .ok n => s!"ok name=true missing=- items={4 + n}"
+       | .error e => "EXC:" ++ showExc e)
+  | "valgetpoll" => s!"ok name=true missing=- items={3 + (arg.splitOn ",").length}"
+  | _ =>
+      (match valgetDecode (parseHex arg) with
+       | .error e => "EXC:" ++ showExc e
+       | .ok (_, _, _, items) =>
+         match itemsText items with
+         | .ok n => s!"ok name=true missing=- items={3 + n}"
+         | .error e => "EXC:" ++ showExc e)
+
 /-- `str|<class>|<payload hex or ->|field=value,…`: `str(frame)` of a fresh / decoded / edited frame -/
 def runStr (cls pl edits : String) : String :=
   let dyn := cls == "UbxCfgGnss" || cls == "UbxCfgEsfla" || cls == "UbxEsfStatus" || cls == "UbxMonVer"
@@ -434,6 +453,7 @@ def runScanSeq (scans : String) : String :=
 
 instance : Inhabited Ubx.Gpsd.Json := ⟨.null⟩
 
+
 /-- tiny JSON value syntax for the driver: n | t | f | 0 | s<hex> | a(<v>;<v>…) | o(<hexkey>=<v>;…) — parsed by a
     recursive-descent reader over a token list -/
 partial def parseJ (ts : List String) : Ubx.Gpsd.Json × List String :=
@@ -477,6 +497,26 @@ def runGpsd (req chunks : String) : String :=
       | .ok st' => (.ok st', acc.2 ++ [s!"{st'.selected.getD "None"},{st'.enabled},{st'.release.getD "None"}"])
   let (_, out) := (chunks.splitOn "/").foldl step (.ok (Ubx.Gpsd.State.init name), [])
   String.intercalate " " out
+
+/-- `gpsdsetup|<requested>|<chunk>/<chunk>…|<data hex>`: `_enable()` reads chunk after chunk until one leaves the connection
+    ready; `setup()` then fixes the command header from the selected device; one command is sent -/
+def runGpsdSetup (req chunks data : String) : String :=
+  let name : Option String := if req == "-" then none else some (String.mk ((parseHex req).map Char.ofNat))
+  let parseLineTok (l : String) : Ubx.Gpsd.Line :=
+    if l == "X" || l == "B" || l == "b" then .notJson else if l == "D" then .tooDeep else .value (parseJ (l.splitOn " ")).1
+  let rec go (st : Ubx.Gpsd.State) : List String → Except Exc (Option Ubx.Gpsd.State)
+    | [] => .ok none
+    | c :: rest =>
+      let ch : Ubx.Gpsd.Chunk := if c == "U" then .undecodable else .lines (if c.isEmpty then [] else (c.splitOn ";").map parseLineTok)
+      match Ubx.Gpsd.parseChunk st ch with
+      | .error e => .error e
+      | .ok st' => if st'.enabled then .ok (some st') else go st' rest
+  match go (Ubx.Gpsd.State.init name) (chunks.splitOn "/") with
+  | .error e => "EXC:" ++ showExc e
+  | .ok none => "not-ready"
+  | .ok (some st) =>
+      let dev := st.selected.getD "None"
+      s!"selected={dev} cmd={toHex (Ubx.Gpsd.command (dev.toList.map Char.toNat) (parseHex data))}"
 
 /-- `frame|cls|id|<payload hex>` → to_bytes() twice; `framegen|cls|id|len|seed|mode` the same on a generated payload -/
 def runFrame (c i pl : String) : String :=
@@ -601,6 +641,7 @@ def handle (line : String) : String :=
   | ["render", c, v, d] => runRender c v d
   | ["render", c, v, d, _] => runRender c v d
   | ["str", c, pl, e] => runStr c pl e
+  | ["strval", k, a] => runStrVal k a
   | ["frame", c, i, pl] => runFrame c i pl
   | ["framegen", c, i, l, s, m] => runFrameGen c i l s m
   | ["frameseq", c, i, st] => runFrameSeq c i st
@@ -617,6 +658,7 @@ def handle (line : String) : String :=
   | ["gpsd", r, c] => runGpsd r c
   | "tty" :: rest => runTty rest
   | ["gpsdtx", d, x, r] => runGpsdTx d x r
+  | ["gpsdsetup", r, c, d] => runGpsdSetup r c d
   | _ => "bad-line"
 
 def main : IO Unit := do loop handle (← IO.getStdin) (← IO.getStdout)
